@@ -4,6 +4,11 @@ import json, os
 HERE = os.path.dirname(os.path.dirname(os.path.abspath(__file__)))
 ALL = ["C%02d" % i for i in range(1, 21)]
 CHECKS = {
+ "C17": dict(
+   technique="Preproc.tla carries an `effects` variable that no action changes (NoEffects model-checked); directive files simulated by TLC with host-language expressions as macro bodies and conditions, plus a slot catalogue (#if, #elif, #define+#if, #define+use, #include, pp_defs by file and by command line, function-like macro), are indexed and queried in a child process under a sys.addaudithook monitor, differentially against a benign control session",
+   text="Every payload tries to create a canary; the recorded audit trace must contain no exec/compile-and-run, process, socket, import, write or delete event beyond the control's, and the canary must not exist.",
+   note="Observation-based: no claim beyond the payload catalogue and the simulated files. Trusted: CPython audit events, the control-session subtraction.",
+   design="4/C17"),
  "C19": dict(
    technique="TLA+ spec Config.tla: what the command line and the file say for up to two options and the kind of file (none, ok, five malformed kinds) form the initial state; Initialize computes the effective values by the reference rule; every state is bound to concrete option triples and a real server's attributes, messages and initialize answer are compared with the spec state",
    text="24 documented options (flags, integers, strings, path sets, suffix sets, pp_defs JSON) x {absent, CLI, file, both with different values} x pairs x 7 file kinds; untouched options must stay at their defaults.",
